@@ -157,7 +157,13 @@ def run(ctx):
         "panic, hang, process death, or diagnostic span outside the file / off a character boundary is a "
         "violation with the delta-debugged input as replay. Semantic and lowering diagnostics "
         "(DiagnosticsReporter::check on a one-file crate with the dev corelib) are exercised by a separate, smaller "
-        "leg (h10sem: small corpus programs, one-round mutants, edge cases; panic / hang / death only); plugins "
+        "leg (h10sem: small corpus programs, one-round mutants, edge cases, and an attribute / inline-macro argument "
+        "soup - every attribute and argument name found in /repo's plugin / semantic sources x ~105 argument-list "
+        "forms (empty, missing parens, named, `=`, not()/and()/or() nestings with empty inner lists, every literal "
+        "kind, trailing commas, duplicates, malformed) rotated over 25 placements (fn, struct, enum, member, variant, "
+        "trait, trait item, impl, impl item, mod, use, const, extern, alias, statement, match arm, param, macro, ...), "
+        "plus every inline macro x ~50 argument forms and malformed user macros; panic / hang / death only; the "
+        "test and executable plugins are not loaded, their attribute names are exercised as unknown ones); plugins "
         "beyond the default suite and the language server are not exercised. "
         "LONG TAIL, stated plainly: the error paths of semantic analysis and lowering are not panic-free and this "
         "check does not claim they are. During construction the semantic leg was swept with 13 thorough runs "
